@@ -73,21 +73,34 @@ theorem who_reply {s : Srv} {b : Bot} (h : AtSrv s b) {k : Str} {sc : SChan} (hs
   simp only [recvAll_cons, recv_emit, recvAll_nil, hfeed, Bot.stateCmd, cmdOf_315]
   exact ⟨hf, hc, hn⟩
 
-/-- replies that only touch the bot's record of channel `k` (and leave correct hostmasks correct) keep the coupling -/
-theorem coupled_of_frame {s : Srv} {b b' : Bot} {k : Str} (hc : Coupled s b) (hf : Frame s k b b')
-    (hrel : ChanRel s (aget s.chans k) (aget b'.channels k)) : Coupled s b' := by
-  refine ⟨hf.nick.trans hc.nick, ?_, ?_, ?_, hf.cfgNick.trans hc.cfgNick, hf.cfgIdent.trans hc.cfgIdent⟩
+/-- replies that only touch the bot's record of channel `k` (and leave correct hostmasks correct) keep the
+coupling; the server may at the same time mark channel `k` as synced and more users as told -/
+theorem coupled_of_frame {s s' : Srv} {b b' : Bot} {k : Str} (hc : Coupled s b) (hf : Frame s k b b')
+    (hu : s'.users = s.users) (hch : s'.chans = s.chans) (hbot : s'.bot = s.bot) (hcfg : s'.cfg = s.cfg)
+    (hother : ∀ k', k' ≠ k → s'.mSynced k' = s.mSynced k' ∧ s'.bSynced k' = s.bSynced k')
+    (hrel : ChanRel s' k (aget s.chans k) (aget b'.channels k))
+    (htold : ∀ x u, aget s.users x = some u → x ∈ s'.told → x ∈ s.told ∨ aget b'.n2h x = some u.mask) :
+    Coupled s' b' := by
+  have hbk : s'.botKey = s.botKey := by simp [Srv.botKey, hbot]
+  refine ⟨by rw [hbot]; exact hf.nick.trans hc.nick, ?_, ?_, ?_, by rw [hcfg]; exact hf.cfgNick.trans hc.cfgNick,
+    by rw [hcfg]; exact hf.cfgIdent.trans hc.cfgIdent⟩
   · intro k'
+    rw [hch]
     by_cases hk : k' = k
     · subst hk; exact hrel
-    · rw [hf.others k' hk]; exact hc.chans k'
-  · intro x u hu hv
-    have := hc.hosts x u hu hv
-    rcases hf.n2h x with e | ⟨u', hu', e⟩
-    · rw [e]; exact this
-    · rw [hu] at hu'; cases hu'; exact e
+    · rw [hf.others k' hk]
+      have := hc.chans k'
+      obtain ⟨h1, h2⟩ := hother k' hk
+      cases ha : aget s.chans k' <;> cases hb : aget b.channels k' <;> rw [ha, hb] at this <;>
+        simp only [ChanRel, hbk, hcfg, h1, h2] at this ⊢ <;> exact this
+  · intro x u hux ht
+    rw [hu] at hux
+    rcases htold x u hux ht with h | h
+    · exact hf.keeps hux (hc.hosts x u hux h)
+    · exact h
   · intro kc sc hsc hb
-    rw [hf.pfx]; exact hc.pfx kc sc hsc hb
+    rw [hch] at hsc; rw [hbk] at hb ⊢; rw [hu, hf.pfx]
+    exact hc.pfx kc sc hsc hb
 
 theorem secret_is_flag {modes : List (Char × Option Str)} (hm : ∀ e ∈ modes, ModeEntryOK e)
     (h : (aget modes 's').isSome = true) : aget modes 's' = some none := by
@@ -100,25 +113,81 @@ theorem secret_is_flag {modes : List (Char × Option Str)} (hm : ∀ e ∈ modes
       exact absurd hcls hns
     · simp only at hv; rw [hv]
 
+theorem mem_shown {s : Srv} {ps : List (Str × Flags)} {x : Str} {f' : Flags} (h : (x, f') ∈ shownMembers s ps) :
+    ∃ f, (x, f) ∈ ps ∧ f' = shown s.cfg f := by
+  simp only [shownMembers, List.mem_map, Prod.mk.injEq] at h
+  obtain ⟨p, hp, rfl, rfl⟩ := h
+  exact ⟨p.2, hp, rfl⟩
+
 /-- after NAMES lines for all members, a record that matched still matches -/
-theorem matches_after_names {sc : SChan} {ch ch' : Chan} (hm : ChanMatches sc ch)
-    (hmodes : ∀ e ∈ sc.modes, ModeEntryOK e)
-    (hr : NamesRel (if (aget sc.modes 's').isSome then ['@'] else if (aget sc.modes 'p').isSome then ['*'] else ['=']) sc.members ch ch') :
-    ChanMatches sc ch' := by
-  refine ⟨?_, ?_, ?_, ?_, hr.topic.trans hm.topic, ?_, ?_⟩
-  · intro x; rw [hr.users, hm.users]; simp
-  · intro x; rw [hr.ops, hm.ops]; simp
-  · intro x; rw [hr.halfops, hm.halfops]; simp
-  · intro x; rw [hr.voices, hm.voices]; simp
-  · intro m
+theorem matches_after_names {s : Srv} {ms bs : Bool} {sc : SChan} {ch ch' : Chan}
+    (hm : ChanMatches s.cfg.multiPrefix ms bs sc ch) (hmodes : ∀ e ∈ sc.modes, ModeEntryOK e)
+    (hr : NamesRel (if (aget sc.modes 's').isSome then ['@'] else if (aget sc.modes 'p').isSome then ['*'] else ['='])
+      (shownMembers s sc.members) ch ch') :
+    ChanMatches s.cfg.multiPrefix ms bs sc ch' := by
+  have hsecret : ∀ m, aget ch'.modes m = aget ch.modes m ∨ (aget ch'.modes m = aget sc.modes m) := by
+    intro m
     rcases hr.modes m with e | ⟨hty, rfl, e⟩
-    · rw [e]; exact hm.modes m
-    · rw [e]
+    · exact Or.inl e
+    · right; rw [e]
       by_cases hs : (aget sc.modes 's').isSome = true
       · exact (secret_is_flag hmodes hs).symm
       · simp only [hs, Bool.false_eq_true, ↓reduceIte] at hty
         split at hty <;> simp at hty
-  · intro x; rw [hr.bans]; exact hm.bans x
+  refine ⟨⟨?_, ?_⟩, ⟨?_, ?_⟩, ⟨?_, ?_⟩, ⟨?_, ?_⟩, hr.topic.trans hm.topic, ?_, ?_, ?_, ?_⟩
+  · intro x hx
+    rcases (hr.users x).mp hx with h | ⟨f', hf'⟩
+    · exact hm.users.sub x h
+    · obtain ⟨f, hf, _⟩ := mem_shown hf'; exact ⟨f, hf, trivial⟩
+  · intro _ x hex; exact (hr.users x).mpr (Or.inl (hm.users.sup trivial x hex))
+  · intro x hx
+    rcases (hr.ops x).mp hx with h | ⟨f', hf', ho⟩
+    · exact hm.ops.sub x h
+    · obtain ⟨f, hf, rfl⟩ := mem_shown hf'; exact ⟨f, hf, show f.o = true from (shown_o s.cfg f).symm.trans ho⟩
+  · intro _ x hex; exact (hr.ops x).mpr (Or.inl (hm.ops.sup trivial x hex))
+  · intro x hx
+    rcases (hr.halfops x).mp hx with h | ⟨f', hf', ho⟩
+    · exact hm.halfops.sub x h
+    · obtain ⟨f, hf, rfl⟩ := mem_shown hf'; exact ⟨f, hf, shown_h s.cfg f ho⟩
+  · intro hmp x hex; exact (hr.halfops x).mpr (Or.inl (hm.halfops.sup hmp x hex))
+  · intro x hx
+    rcases (hr.voices x).mp hx with h | ⟨f', hf', ho⟩
+    · exact hm.voices.sub x h
+    · obtain ⟨f, hf, rfl⟩ := mem_shown hf'; exact ⟨f, hf, shown_v s.cfg f ho⟩
+  · intro hmp x hex; exact (hr.voices x).mpr (Or.inl (hm.voices.sup hmp x hex))
+  · intro m
+    rcases hsecret m with e | e
+    · rw [e]; exact hm.modes m
+    · exact Or.inl e
+  · intro hs m
+    rcases hsecret m with e | e
+    · rw [e]; exact hm.modesFull hs m
+    · exact e
+  · intro x hx; rw [hr.bans] at hx; exact hm.bans x hx
+  · intro hs x hx; rw [hr.bans]; exact hm.bansFull hs x hx
+
+theorem mem_addAll {l xs : List Str} {x : Str} : x ∈ addAll l xs ↔ x ∈ l ∨ x ∈ xs := by
+  unfold addAll
+  induction xs generalizing l with
+  | nil => simp
+  | cons a as ih =>
+    rw [List.foldl_cons, ih]
+    simp only [mem_sadd, List.mem_cons]
+    constructor
+    · rintro ((rfl | h) | h)
+      · exact Or.inr (Or.inl rfl)
+      · exact Or.inl h
+      · exact Or.inr (Or.inr h)
+    · rintro (h | rfl | h)
+      · exact Or.inl (Or.inr h)
+      · exact Or.inl (Or.inl rfl)
+      · exact Or.inr h
+
+theorem mem_keys {sc : SChan} {x : Str} : x ∈ sc.keys ↔ ∃ f, (x, f) ∈ sc.members := by
+  simp only [SChan.keys, List.mem_map]
+  constructor
+  · rintro ⟨⟨a, f⟩, hp, rfl⟩; exact ⟨f, hp⟩
+  · rintro ⟨f, hp⟩; exact ⟨(x, f), hp, rfl⟩
 
 theorem coupled_names {s : Srv} {b : Bot} (hw : SrvWF s) (hc : Coupled s b) (c : Str) :
     Coupled (s.step (.names c)).1 (b.recvAll (s.step (.names c)).2) := by
@@ -134,22 +203,41 @@ theorem coupled_names {s : Srv} {b : Bot} (hw : SrvWF s) (hc : Coupled s b) (c :
       | none => rw [hbc] at hrel; simp only [ChanRel] at hrel; rw [Srv.botIn] at hb; rw [hb] at hrel; cases hrel
       | some ch =>
         rw [hbc] at hrel
-        obtain ⟨hf, ch', hch', hr⟩ := names_reply ⟨hw, hc.nick⟩ hch hbc
-        apply coupled_of_frame hc hf
-        rw [hch, hch']
-        exact ⟨hrel.1, matches_after_names hrel.2 (hw.chans _ _ hch).modes hr⟩
+        obtain ⟨hf, ⟨ch', hch', hr⟩, hn⟩ := names_reply ⟨hw, hc.nick⟩ hch hbc
+        refine coupled_of_frame hc hf rfl rfl rfl rfl (fun _ _ => ⟨rfl, rfl⟩) ?_ ?_
+        · rw [hch, hch']
+          exact ⟨hrel.1, matches_after_names hrel.2 (hw.chans _ _ hch).modes hr⟩
+        · intro x u hux ht
+          by_cases huh : s.cfg.uhnames = true
+          · have ht' : x ∈ addAll s.told sc.keys := by simpa [huh] using ht
+            rcases mem_addAll.mp ht' with h | h
+            · exact Or.inl h
+            · obtain ⟨f, hf'⟩ := mem_keys.mp h
+              obtain ⟨u', hu', hn'⟩ := hn huh (x, f) hf'
+              rw [hux] at hu'; cases hu'
+              exact Or.inr hn'
+          · left; simpa [huh] using ht
     · simp only [hb, Bool.false_eq_true, ↓reduceIte, recvAll_nil]; exact hc
   · simp only [recvAll_nil]; exact hc
 
-theorem coupled_who {s : Srv} {b : Bot} (hw : SrvWF s) (hc : Coupled s b) (c : Str) :
-    Coupled (s.step (.who c)).1 (b.recvAll (s.step (.who c)).2) := by
-  simp only [Srv.step]
+/-- a WHO reply, solicited or not, whether or not the bot is still on the channel -/
+theorem coupled_replyWho {s : Srv} {b : Bot} (hw : SrvWF s) (hc : Coupled s b) (c : Str) :
+    Coupled (s.replyWho c).1 (b.recvAll (s.replyWho c).2) := by
+  unfold Srv.replyWho
   split
   · rename_i sc hch
     rw [Srv.chan_eq] at hch
-    obtain ⟨hf, hcs, _⟩ := who_reply (b := b) ⟨hw, hc.nick⟩ hch
-    apply coupled_of_frame hc hf
-    rw [hcs]; exact hc.chans (lower c)
+    obtain ⟨hf, hcs, hn⟩ := who_reply (b := b) ⟨hw, hc.nick⟩ hch
+    refine coupled_of_frame hc hf rfl rfl rfl rfl (fun _ _ => ⟨rfl, rfl⟩) ?_ ?_
+    · rw [hcs]; exact hc.chans (lower c)
+    · intro x u hux ht
+      have ht' : x ∈ addAll s.told sc.keys := ht
+      rcases mem_addAll.mp ht' with h | h
+      · exact Or.inl h
+      · obtain ⟨f, hf'⟩ := mem_keys.mp h
+        obtain ⟨u', hu', hn'⟩ := hn (x, f) hf'
+        rw [hux] at hu'; cases hu'
+        exact Or.inr hn'
   · simp only [recvAll_nil]; exact hc
 
 end C10
